@@ -358,8 +358,8 @@ def run(ctx):
             hist = item["hist"][:len(steps)]
             judged = steps[item["from"] - 1:]
             by_id[item["id"]] = {"op": "regen", "input": {"kind": kind, "env": item["env"], "case": item["case"], "hist": hist,
-                                                            "from": item["from"]},
-                                 "call": f"harness.reuse.replay({kind!r}, case, env, hist, workdir)  # actions: "
+                                                            "from": item["from"], "hashseed": item["hashseed"]},
+                                 "call": f"PYTHONHASHSEED={item['hashseed']}: harness.reuse.replay({kind!r}, case, env, hist, workdir)  # actions: "
                                          + " ".join(step['a'] for step in hist),
                                  "observed": [{k: step.get(k) for k in ("a", "o", "exc", "msg", "js", "ef", "summary")} for step in judged][-4:],
                                  "features": features(kind, item["env"], hist, item["case"]), "sampled": item["sampled"]}
@@ -419,15 +419,31 @@ def run(ctx):
                         "from a fresh run (overlap removal happens before trimming) is reported as drift"]
 
 
+def observe_verbose(items):
+    from .. import reuse as U  # pylint: disable=import-outside-toplevel
+    return [U.replay(item["kind"], item["case"], item["env"], item["hist"], item["workdir"], keep_texts=True) for item in items]
+
+
 def replay(ctx, record):
     from .. import reuse as U  # pylint: disable=import-outside-toplevel
     U.write_pfam_database(ctx.workdir + "/c11_databases")
     data = record["input"]
     item = {"id": 0, "kind": data["kind"], "env": data["env"], "case": data["case"], "hist": data["hist"], "from": data["from"],
             "workdir": ctx.workdir}
-    steps = U.replay(item["kind"], item["case"], item["env"], item["hist"], ctx.workdir, keep_texts=True)
+    hashseed = data.get("hashseed", 0)      # set-order leaks only reproduce under the hash seed they were seen with
+    old = os.environ.get("PYTHONHASHSEED")
+    os.environ["PYTHONHASHSEED"] = str(hashseed)
+    try:
+        with multiprocessing.get_context("spawn").Pool(1) as pool:
+            steps = pool.map(observe_verbose, [[item]])[0][0]
+    finally:
+        if old is None:
+            os.environ.pop("PYTHONHASHSEED", None)
+        else:
+            os.environ["PYTHONHASHSEED"] = old
     for step in steps:
-        if step.get("text"):
-            print(f"  {step['a']}: {step['o']} {step['exc']} json={step['text'][:400]}")
-    ctx.validate("Reuse_Trace", [to_event(item, steps)], {0: {"op": record["op"], "input": data}})
+        print(f"  {step['a']}: {step['o']} {step['exc']} {step.get('msg', '')} json={step.get('text', '')[:400]}")
+    ctx.validate("Reuse_Trace", [to_event(item, steps)], {0: {"op": record["op"], "input": data,
+                                                              "observed": [{k: step.get(k) for k in ("a", "o", "exc", "msg", "js", "ef")}
+                                                                           for step in steps][-3:]}})
     ctx.failures = [f for f in ctx.failures if f["clause"] == record["clause"]]
